@@ -18,17 +18,18 @@
                            (shuffle + truncate(sync_retry_nodes) of the other members: see [pick_ok])
    Output: one [mreq] per message handed to the network: MempoolMessage::BatchRequest(digests, origin) -> dest. *)
 From Coq Require Import List NArith Bool.
+From HS Require Import Guards.
 Import ListNotations.
 Open Scope N_scope.
 
-(* The three decision expressions of the source, each under its own name (candidates for regeneration). *)
+(* The decision expressions of the source, REGENERATED from mempool/src/synchronizer.rs by tools/regen.py (Guards.v). *)
 (* synchronizer.rs, Cleanup arm: `if self.round < self.gc_depth { continue; }` *)
-Definition ms_gc_skip (round gc_depth : N) : bool := round <? gc_depth.
+Definition ms_gc_skip (round gc_depth : N) : bool := g_ms_gc_skip round gc_depth.       (* regenerated (Guards.v) *)
 (* synchronizer.rs, Cleanup arm: `self.pending.retain(|_, (r, _, _)| r > &mut gc_round)` with
    `gc_round = self.round - self.gc_depth` *)
-Definition ms_gc_keep (r gc_round : N) : bool := gc_round <? r.
+Definition ms_gc_keep (r gc_round : N) : bool := g_ms_gc_keep r gc_round.             (* regenerated (Guards.v) *)
 (* synchronizer.rs, timer arm: `if timestamp + (self.sync_retry_delay as u128) < now` *)
-Definition ms_retry_due (timestamp delay now : N) : bool := timestamp + delay <? now.
+Definition ms_retry_due (timestamp delay now : N) : bool := g_ms_retry_due timestamp delay now.   (* regenerated (Guards.v) *)
 
 Record pentry := mkPE { pe_digest : N; pe_round : N; pe_time : N }.
 Record MS := mkMS { ms_round : N; ms_pending : list pentry }.
